@@ -78,4 +78,6 @@ MUTANTS += [
         return 0.0
     lcs = _most_informative_lcs(synset1, synset2, ic)
     return 2 * information_content(lcs, ic) / (ic1 + ic2)""")]},
+    {'name': 'max-depth-memoised', 'expect': 'C14-R7',
+     'edits': [E('wn/taxonomy.py', "def max_depth(synset: 'Synset', simulate_root: bool = False) -> int:", "@__import__('functools').lru_cache(maxsize=None)\ndef max_depth(synset: 'Synset', simulate_root: bool = False) -> int:")]},
 ]
